@@ -34,12 +34,10 @@ Definition mp_ahd (pl : mp_pl) (ok : bool) (d : bytes) (is_line : bool) : mp_pl 
 
 Definition mp_matched (b : bytes) (k : nat) : bytes := firstn (k - 2) (skipn 2 b).
 
-(* what a failed boundary test releases: the line ending (a line end in line mode) and the matched bytes *)
+(* what a failed boundary test releases: the line ending, as the end of a line (only line mode looks at that), then
+   the matched bytes *)
 Definition mp_arelease (b : bytes) (pl : mp_pl) (ok : bool) (held : bytes) (k : nat) : mp_pl * bool :=
-  match mpl_mode pl with
-  | MpLine => let '(pl1, ok1) := mp_ahd pl ok held true in mp_ahd pl1 ok1 (mp_matched b k) false
-  | MpData => mp_ahd pl ok (held ++ mp_matched b k) false
-  end.
+  let '(pl1, ok1) := mp_ahd pl ok held true in mp_ahd pl1 ok1 (mp_matched b k) false.
 
 Definition mp_astep_data (b : bytes) (pl : mp_pl) (ok : bool) (crp : bool) (c : N) : mp_ast :=
   if (c =? CR)%N then
